@@ -33,8 +33,11 @@ def categorical_encode_series_to_sparse_csc_matrix(
         return levels, spsparse.csc_matrix((series.shape[0], 0))
 
     if drop_first:
-        series = series.remove_categories(levels[0])
+        # `remove_categories` may reorder the remaining categories (it sorts
+        # them for unordered categoricals), which would misalign the codes with
+        # `levels`; `set_categories` keeps the nominated order.
         levels = levels[1:]
+        series = series.set_categories(levels)
 
     codes = series.codes
     non_null_code_indices = codes != -1
